@@ -16,6 +16,7 @@
 #include <gmssl/rand.h>
 #include <gmssl/x509.h>
 #include <gmssl/error.h>
+#include <gmssl/verif.h>
 #include <gmssl/sm2.h>
 #include <gmssl/sm3.h>
 #include <gmssl/sm4.h>
@@ -177,7 +178,12 @@ int tls13_gcm_decrypt(const BLOCK_CIPHER_KEY *key, const uint8_t iv[12],
 	}
 	// remove padding, get record_type
 	*record_type = 0;
-	while (mlen--) {
+	while (mlen--)
+	VERIF_LOOP_ASSIGNS(mlen, *record_type)
+	VERIF_LOOP_INVARIANT(mlen <= VERIF_LOOP_ENTRY(mlen) && *record_type == 0)
+	VERIF_LOOP_INVARIANT((verif_gk >= mlen && verif_gk < VERIF_LOOP_ENTRY(mlen)) ? out[verif_gk] == 0 : 1)
+	VERIF_LOOP_DECREASES(mlen)
+	{
 		if (out[mlen] != 0) {
 			*record_type = out[mlen];
 			break;
